@@ -48,7 +48,7 @@ theorem C10_rejection_travels (e : Glue.Payload) (ops : List Glue.Op) (h : ∀ o
 /-- and `attempt` inside `catch` hands a verdict on unchanged -/
 theorem C10_catch_attempt (r : Glue.Res) : Glue.step r (.catchAttempt 0) = r := Glue.catch_attempt r
 
-example : Glue.run (.error 0) [.map 5, .andThen 0 1, .catchAttempt 2] = .error 0 := by decide
+example : Glue.run (.error 0) [.map 5, .andThen 0 1, .catchAttempt 2] = .error 0 := rfl
 
 /-! non-vacuity (`String.endsWith` does not reduce in the kernel, so the clearing rule is
 given explicitly here) -/
